@@ -66,6 +66,24 @@ def open_family(rep, d, tier):
             srcs.append({"id": base + "-id", "base": base, "src": f"{pre} | filter true{tail}"})
             if cont.startswith("filter") and "&&" not in cont:
                 srcs.append({"id": base + "-split", "base": base, "src": f"{pre} | filter true && ({cont[7:]})"})
+    # declarations that refer to each other by relative qualified names, moved together into a module (and a module of
+    # the same name left at the root: the moved declarations must keep seeing their own)
+    mods = [
+        ("module cfg {\n  let k2 = 2\n}\nlet t2 = (from t | derive {y = a * cfg.k2})\nfrom t2 | select {k, y}",
+         ["module m {\n  module cfg {\n    let k2 = 2\n  }\n  let t2 = (from t | derive {y = a * cfg.k2})\n}\nfrom m.t2 | select {k, y}",
+          "module cfg {\n  let k2 = 100\n}\nmodule m {\n  module cfg {\n    let k2 = 2\n  }\n  let t2 = (from t | derive {y = a * cfg.k2})\n}\nfrom m.t2 | select {k, y}",
+          "module m {\n  module cfg {\n    let k2 = 2\n  }\n  let t2 = (from t | derive {y = a * m.cfg.k2})\n}\nfrom m.t2 | select {k, y}"]),
+        ("module fns {\n  let dbl = x -> x * 2\n}\nlet t2 = (from t | derive {y = fns.dbl a})\nfrom t2 | filter y > 1",
+         ["module m {\n  module fns {\n    let dbl = x -> x * 2\n  }\n  let t2 = (from t | derive {y = fns.dbl a})\n}\nfrom m.t2 | filter y > 1",
+          "module fns {\n  let dbl = x -> x * 3\n}\nmodule m {\n  module fns {\n    let dbl = x -> x * 2\n  }\n  let t2 = (from t | derive {y = fns.dbl a})\n}\nfrom m.t2 | filter y > 1"]),
+        ("module src {\n  let big = (from t | filter a > 0)\n}\nlet t3 = (from src.big | select {k, a})\nfrom t3 | sort {k, a}",
+         ["module m {\n  module src {\n    let big = (from t | filter a > 0)\n  }\n  let t3 = (from src.big | select {k, a})\n}\nfrom m.t3 | sort {k, a}",
+          "module src {\n  let big = (from t | filter a < 0)\n}\nmodule m {\n  module src {\n    let big = (from t | filter a > 0)\n  }\n  let t3 = (from src.big | select {k, a})\n}\nfrom m.t3 | sort {k, a}"]),
+    ]
+    for i, (b_, vs) in enumerate(mods):
+        srcs.append({"id": f"md{i}", "src": b_})
+        for j, v_ in enumerate(vs):
+            srcs.append({"id": f"md{i}-mod{j}", "base": f"md{i}", "src": v_})
     # binding demonstration: a variant that is not a refactoring of its base must be rejected
     srcs.append({"id": "self-base", "src": "from t | select {c = a + 1, t.*}"})
     srcs.append({"id": "self-cols", "base": "self-base", "src": "from t | select {c = a + 1, c2 = a, t.*}"})
